@@ -138,8 +138,14 @@ def finish(rep, tier, t0, level, explanation, assumptions, rule_text, samples, e
         'known_findings_reported': n_known,
         'exhaustive': False,
     }
+    if level == 'translation_validation':
+        # programs whose expansion was validated / pairs compared; every mismatch found is reported as a violation
+        cov['disagreements_checked'] = sum(len(v) for r, v in rep.instances.items() if r.startswith(('R1', 'R3', 'T.')))
     if extra_cov:
         cov.update(extra_cov)
+    # samples: one of the longest instance descriptors per rule (more telling than the first)
+    if not samples:
+        cov['samples'] = [{'rule': r, 'instance': max(v, key=len)} for r, v in sorted(rep.instances.items()) if v][:14]
     ev = {
         'property_id': rep.pid, 'tier': tier, 'seed': int(os.environ.get('VERIF_SEED', '0') or 0), 'level': level,
         'coverage': cov, 'assumptions': assumptions, 'wall_s': round(time.time() - t0, 2), 'violations': n_viol,
